@@ -235,7 +235,7 @@ Min2(x, y) == IF x < y THEN x ELSE y
 
 --------------------------------------------------------------------------
 \* In "mc" mode only the last step is kept (the properties read nothing older; the
-\* history they need is in the ghosts reach/adm), which keeps states small.
+\* history they need is in the ghosts reach/adm/ran), which keeps states small.
 Record(step) ==
     /\ hist' = IF Mode = "mc" THEN <<step>> ELSE Append(hist, step)
     /\ (Mode = "edges" /\ step.a # "Tick") => EmitTrace(hist')
